@@ -14,45 +14,24 @@ Theorems (all by induction, no enumeration; the lexer is the well-founded model 
  * `parse_source_is_laid_out`— for EVERY fuel and every parser variant, `Parser.Parse` on the text (parser model driven by the lexer
                                model, line table as known so far) answers what the parser model answers on `tokensOf rts` read against
                                `layoutOf rts` — trees, syntax errors, panics, out-of-fuel alike (simulation through all 45 productions:
-                               Proofs/LexSim*.lean; lexer side: Proofs/RenderLex*.lean);
+                               Proofs/LexSim*.lean; lexer side: Proofs/RenderLex*.lean, Proofs/RenderGap*.lean);
  * `parse_render_canonical`  — composition with `parse_statements_roundtrip`: if the rendered tokens render the program `p`
                                (`LinProgram`) under the layout the rendering determines, the text parses to exactly `p` — same tree, same
                                line numbers — for every fuel from `16 * tokens + 52` on.
-What is still open is said at `parse_render_layouts_full`.
+All four are corollaries of the theorems about documents with free layout (Properties/C03Layouts.lean: `lex_rendered_doc`,
+`doc_in_order`, `parse_doc_is_laid_out`, `parse_render_doc_plain`): a canonical rendering is the document `renderDoc .tab k₀ (tok :: ofRToks …)`
+(Proofs/RenderGapEmbed.lean).  What is still open is said at `parse_render_layouts_full` (Properties/C03Layouts.lean).
 -/
-import ZnVerif.Proofs.RenderLexRun
-import ZnVerif.Proofs.LexSim
-import ZnVerif.Proofs.LexRunOrder
-import ZnVerif.Properties.C03Stmt
+import ZnVerif.Proofs.RenderGapEmbed
+import ZnVerif.Properties.C03Layouts
 
 namespace ZnVerif.Properties.C03
 open ZnVerif.Model ZnVerif.Model.Parser ZnVerif.Generated.Tokens ZnVerif.Generated.ParserTables
 open ZnVerif.Spec.StmtSyntax ZnVerif.Spec.RenderChars
 open ZnVerif.Proofs.RenderLex ZnVerif.Proofs.LexSim ZnVerif.Proofs.LexRun
 
-/-- **lex_rendered**: the lexer model on the canonical text of a well-formed token list answers exactly the rendered tokens — types,
-literals, start and end indices — then EOF at the end of the text, without error; and the line table it leaves is exactly the one
-the rendering determines (every physical line: start index, number of TABs, `LineText` from after the TABs to the line feed; last
-the empty line after the final LF).  Any token budget from `tokens + 2` on. -/
-theorem lex_rendered (rts : List RTok) (hwf : WF rts) (fuel : Nat) (hf : rts.length + 2 ≤ fuel) :
-    (lexAll fuel (mkLexer (renderTokens rts)) []).1 = tokensOf rts ++ [(layoutOf rts).eof] ∧
-    (lexAll fuel (mkLexer (renderTokens rts)) []).2.1 = some (.ok ()) ∧
-    (lexAll fuel (mkLexer (renderTokens rts)) []).2.2.lines = (layoutOf rts).lines := by
-  have hne : ∀ j, j < (renderRun rts hwf).N → ((renderRun rts hwf).tk j).type ≠ cTypeEOF := by
-    intro j hj
-    have hm := tk_mem_toks (renderRun rts hwf) hj
-    rw [renderRun_toks] at hm
-    exact toksFrom_types rts true 0 hwf.2 _ hm
-  have h := lexAll_run (renderRun rts hwf) hne (renderRun rts hwf).N 0 [] fuel (by omega) (Nat.zero_le _)
-    (by show rts.length + 1 ≤ fuel; omega)
-  rw [renderRun_st0] at h
-  rw [h]
-  refine ⟨?_, rfl, ?_⟩
-  · have : (List.range' 0 ((renderRun rts hwf).N - 0)).map (renderRun rts hwf).tk = (renderRun rts hwf).toks := by
-      show _ = (List.range (renderRun rts hwf).N).map _
-      rw [List.range_eq_range']; rfl
-    simp only [List.reverse_nil, List.nil_append, this, renderRun_toks]
-  · exact renderRun_final_lines rts hwf
+theorem layout_ext {a b : Layout} (h1 : a.lines = b.lines) (h2 : a.eofIdx = b.eofIdx) : a = b := by
+  cases a; cases b; simp_all
 
 theorem item_type_ne_comment (it : Item) (hw : it.WF) : it.type ≠ cTypeComment := by
   cases it with
@@ -68,6 +47,7 @@ theorem item_type_ne_comment (it : Item) (hw : it.WF) : it.type ≠ cTypeComment
   | name cs => simp [Item.type]; decide
   | quoted cs => simp [Item.type]; decide
   | text q t => cases q <;> simp [Item.type, ZnVerif.Spec.Literal.Quote.type] <;> decide
+  | cmt c => exact hw.elim
 
 theorem toksFrom_no_comment : ∀ (rs : List RTok) (first : Bool) (pos : Nat), WFFrom rs →
     ∀ t ∈ toksFrom first pos rs, t.type ≠ cTypeComment := by
@@ -81,56 +61,70 @@ theorem toksFrom_no_comment : ∀ (rs : List RTok) (first : Bool) (pos : Nat), W
     · exact item_type_ne_comment r.item hw.1
     · exact ih false _ hw.2.2 t ht
 
+/-- a canonical rendering is a document: same text, same tokens (none a comment), same layout, and well-formed -/
+theorem canonical_is_doc (rts : List RTok) (hwf : WF rts) : ∃ k0 els,
+    renderTokens rts = renderDoc .tab k0 els ∧ tokensOf rts = docTokens .tab k0 els ∧ layoutOf rts = docLayout .tab k0 els ∧
+    DocWF .tab k0 els ∧ tokCount els = rts.length ∧ (∀ t ∈ docTokens .tab k0 els, t.type ≠ cTypeComment) := by
+  obtain ⟨⟨r0, rs, k0, rfl, hk⟩, hw⟩ := hwf
+  refine ⟨k0, .tok r0.item :: ofRToks rs, renderTokens_eq r0 rs k0 hk, tokensOf_eq r0 rs k0 hk, ?_, docWF_of_WF r0 rs k0 hw, ?_,
+    by rw [← tokensOf_eq r0 rs k0 hk]; exact toksFrom_no_comment _ true 0 hw⟩
+  · apply layout_ext
+    · show (lineTable (r0 :: rs)).toArray = (docLines .tab k0 _).toArray
+      rw [lineTable_eq r0 rs k0 hk]
+    · show (renderTokens (r0 :: rs)).length = (renderDoc .tab k0 _).length
+      rw [renderTokens_eq r0 rs k0 hk]
+  · have : ∀ rs : List RTok, tokCount (ofRToks rs) = rs.length := by
+      intro rs
+      induction rs with
+      | nil => rfl
+      | cons r rs ih => cases hnl : r.nl <;> simp [ofRToks, hnl, tokCount, ih]
+    simp [tokCount, this]
+
+/-- **lex_rendered**: the lexer model on the canonical text of a well-formed token list answers exactly the rendered tokens — types,
+literals, start and end indices — then EOF at the end of the text, without error; and the line table it leaves is exactly the one
+the rendering determines (every physical line: start index, number of TABs, `LineText` from after the TABs to the line feed; last
+the empty line after the final LF).  Any token budget from `tokens + 2` on. -/
+theorem lex_rendered (rts : List RTok) (hwf : WF rts) (fuel : Nat) (hf : rts.length + 2 ≤ fuel) :
+    (lexAll fuel (mkLexer (renderTokens rts)) []).1 = tokensOf rts ++ [(layoutOf rts).eof] ∧
+    (lexAll fuel (mkLexer (renderTokens rts)) []).2.1 = some (.ok ()) ∧
+    (lexAll fuel (mkLexer (renderTokens rts)) []).2.2.lines = (layoutOf rts).lines := by
+  obtain ⟨k0, els, h1, h2, h3, h4, h5, _⟩ := canonical_is_doc rts hwf
+  rw [h1, h2, h3]
+  exact lex_rendered_doc .tab k0 els h4 fuel (by omega)
+
 /-- **rendered_in_order**: the rendered tokens come in reading order against the layout the rendering determines (and none is a
 comment) — the side condition `Layout.InOrder` of `parse_statements_roundtrip` always holds of a rendering. -/
 theorem rendered_in_order (rts : List RTok) (hwf : WF rts) : (layoutOf rts).InOrder (tokensOf rts) := by
-  rw [← renderRun_toks rts hwf]
-  apply run_inOrder
-  intro j hj
-  have hm := tk_mem_toks (renderRun rts hwf) hj
-  rw [renderRun_toks] at hm
-  exact toksFrom_no_comment rts true 0 hwf.2 _ hm
+  obtain ⟨k0, els, _, h2, h3, h4, _, h6⟩ := canonical_is_doc rts hwf
+  rw [h2, h3]
+  have := doc_in_order .tab k0 els h4
+  rw [clean_of_no_comment h6] at this
+  exact this
 
 /-- **parse_source_is_laid_out**: on the canonical text, the parser model driven by the lexer model is the parser model on the
 rendered token list read against the rendered layout — whatever the answer, for every fuel and every variant of the parser. -/
 theorem parse_source_is_laid_out (v : Variant) (rts : List RTok) (hwf : WF rts) (n : Nat) :
     parseSource v n (renderTokens rts) = parseLaidOut v (layoutOf rts) n (tokensOf rts) := by
-  have := parseAST_run (renderRun rts hwf) v n
-  rw [renderRun_toks, renderRun_st0] at this
-  exact this
+  obtain ⟨k0, els, h1, h2, h3, h4, _, _⟩ := canonical_is_doc rts hwf
+  rw [h1, h2, h3]
+  exact parse_doc_is_laid_out v .tab k0 els h4 n
 
 /-- **parse_render_canonical**: for every program `p` and every well-formed rendered token list whose tokens render `p`
 (`LinProgram`: the rendering relation of Spec/StmtSyntax, with the lines the parser stores) under the layout the rendering
 determines, parsing the canonical TEXT yields exactly `p` — the same tree with the same line numbers — for every fuel from
-`16 * tokens + 52` on; for the repaired parser and the pinned one alike. -/
+`16 * tokens + 52` on; for the repaired parser and the pinned one alike.  (Corollary of `parse_render_doc_plain`.) -/
 theorem parse_render_canonical (v : Variant) {p : Program} (rts : List RTok) (hwf : WF rts)
     (h : LinProgram (layoutOf rts) p (tokensOf rts)) (n : Nat) (hn : 16 * rts.length + 52 ≤ n) :
     parseSource v n (renderTokens rts) = .tree p := by
-  rw [parse_source_is_laid_out v rts hwf n]
-  have hlen : (tokensOf rts).length = rts.length := by
-    rw [← renderRun_toks rts hwf]
-    show ((List.range rts.length).map _).length = _
-    simp
-  exact parse_statements_roundtrip v h (rendered_in_order rts hwf) n (by rw [hlen]; exact hn)
+  obtain ⟨k0, els, h1, h2, h3, h4, h5, h6⟩ := canonical_is_doc rts hwf
+  rw [h1]
+  rw [h2, h3] at h
+  exact parse_render_doc_plain v .tab k0 els h4 h6 h n (by rw [h5]; exact hn)
 
 /-- the text determines the tree: two programs rendered by the same canonical text are equal -/
 theorem canonical_text_unambiguous {p p' : Program} (rts : List RTok) (hwf : WF rts)
     (h : LinProgram (layoutOf rts) p (tokensOf rts)) (h' : LinProgram (layoutOf rts) p' (tokensOf rts)) : p = p' :=
   rendering_unambiguous h h' (rendered_in_order rts hwf)
-
-/-- What is STILL open at character level: `parse_render_full` (Properties/C03.lean) over ALL layouts.  Covered by
-`parse_render_canonical`: every synonymous spelling (any keyword of the table, Chinese or ASCII punctuation, `=`/设为 …), names between
-back-ticks, text literals in any of the five quote pairs with `encodeSafe` escapes, TAB indentation, LF line ends, any arrangement
-of tokens on lines that `LinProgram` allows (line breaks after `， 、 { 【 ： ？` and before `】 }` included).  NOT covered — the lexer
-lemma `lex_rendered` would have to be extended to these texts; the parser side (`parse_source_is_laid_out` via `Run`) is already
-general —: (a) no space or several spaces / other white space between tokens, spaces at line ends; (b) comments of the four kinds
-(`comments_are_invisible` handles them at token level); (c) indentation by 4 spaces; (d) CR, CRLF, LFCR line ends, blank lines, a
-last line without line break; (e) text literals that contain line breaks (they add lines to the table), verbatim (unescaped)
-literals; (f) numbers with sign, decimal point or exponent, and names that contain operator marks (`NameChar` excludes
-`& @ # = < > + - * / | %` and 注).  `Render` is meant to be the relation "`src` is some such writing of `rts`". -/
-def parse_render_layouts_full (Render : List RTok → List Nat → Prop) : Prop :=
-  ∀ (v : Variant) (p : Program) (rts : List RTok) (src : List Nat), Render rts src →
-    LinProgram (layoutOf rts) p (tokensOf rts) → ∃ n0, ∀ n, n0 ≤ n → parseSource v n src = .tree p
 
 -- ---- non-vacuity: a five-line program with a nested block, as TEXT ------------------------------------------------------
 
